@@ -33,6 +33,7 @@ class CFG:
         self.pred = {}
         self.noreturn = noreturn or (lambda call: False)
         self.by_ast = {}
+        self.stmt_entry = {}
         self.entry = self._new('entry')
         self.exit_return = self._new('exit_return')
         self.exit_raise = self._new('exit_raise')
@@ -67,20 +68,23 @@ class CFG:
 
     def _stmt(self, st, nxt, ctx):
         if isinstance(st, ast.If):
-            t = self._new('test', st.test, st)
-            self._edge(t, self._seq(st.body, nxt, ctx), True)
-            self._edge(t, self._seq(st.orelse, nxt, ctx), False)
-            self._exc_edges(t, st.test, ctx)
-            return t
+            e = self._cond(st.test, self._seq(st.body, nxt, ctx), self._seq(st.orelse, nxt, ctx), st, ctx)
+            self.stmt_entry[id(st)] = e
+            return e
         if isinstance(st, ast.While):
-            t = self._new('test', st.test, st)
-            inner = ctx.replace(brk=nxt, cont=t)
-            self._edge(t, self._seq(st.body, t, inner), True)
+            # the loop head is a join node so that `continue` / the back edge have a target before the test is lowered
+            head = self._new('loophead', None, st)
+            inner = ctx.replace(brk=nxt, cont=head)
             const_true = isinstance(st.test, ast.Constant) and bool(st.test.value)
-            if not const_true:
-                self._edge(t, self._seq(st.orelse, nxt, ctx), False)
-            self._exc_edges(t, st.test, ctx)
-            return t
+            body = self._seq(st.body, head, inner)
+            if const_true:
+                t = self._new('test', st.test, st)
+                self._edge(t, body, True)
+            else:
+                t = self._cond(st.test, body, self._seq(st.orelse, nxt, ctx), st, ctx)
+            self._edge(head, t, None)
+            self.stmt_entry[id(st)] = head
+            return head
         if isinstance(st, (ast.For, ast.AsyncFor)):
             t = self._new('for', st.iter, st)
             inner = ctx.replace(brk=nxt, cont=t)
@@ -132,6 +136,29 @@ class CFG:
         self._exc_edges(n, st, ctx)
         return n
 
+    def _cond(self, test, t_target, f_target, stmt, ctx):
+        """short-circuit lowering: every test node is an atomic condition; `not` swaps the targets, `and` / `or` chain
+        them.  Nested ifs, merged conditions and De Morgan spellings therefore give the same graph."""
+        if isinstance(test, ast.UnaryOp) and isinstance(test.op, ast.Not):
+            return self._cond(test.operand, f_target, t_target, stmt, ctx)
+        if isinstance(test, ast.BoolOp):
+            nxt_t, nxt_f = t_target, f_target
+            entry = None
+            # build from the last operand backwards
+            for v in reversed(test.values):
+                if isinstance(test.op, ast.And):
+                    entry = self._cond(v, nxt_t, f_target, stmt, ctx)
+                    nxt_t = entry
+                else:
+                    entry = self._cond(v, t_target, nxt_f, stmt, ctx)
+                    nxt_f = entry
+            return entry
+        t = self._new('test', test, stmt)
+        self._edge(t, t_target, True)
+        self._edge(t, f_target, False)
+        self._exc_edges(t, test, ctx)
+        return t
+
     def _is_noreturn_expr(self, e):
         return isinstance(e, ast.Call) and self.noreturn(e)
 
@@ -176,7 +203,18 @@ class CFG:
 
     # queries -----------------------------------------------------------
     def nodes_of(self, astnode):
-        return self.by_ast.get(id(astnode), [])
+        r = self.by_ast.get(id(astnode), [])
+        if not r and isinstance(astnode, ast.expr):
+            # a compound condition is lowered into its atomic operands: return their nodes
+            out = []
+            for x in ast.walk(astnode):
+                out.extend(self.by_ast.get(id(x), []))
+            return [n for n in out if n.kind == 'test']
+        return r
+
+    def entry_of(self, stmt):
+        """the node at which control enters an if / while statement (first atomic test / loop head)."""
+        return self.stmt_entry.get(id(stmt))
 
     def find(self, pred):
         return [n for n in self.nodes if n.ast is not None and pred(n)]
